@@ -7,7 +7,8 @@ GETTERS = {
     3: ["array", "array_upper_view", "areas_exact", "areas_approx", "adjacency", "borders", "distances"],
     4: ["array_upper", "array_full", "volumes", "adjacency", "borders", "distances"],
     "fg": ["full_array", "total_volumes", "full_adjacency", "full_borders", "full_distances", "pos_adjacency", "pos_borders",
-           "pos_distances", "pos_volumes"],
+           "pos_distances", "pos_volumes", "full_adjacency_only_orientation", "full_adjacency_only_position",
+           "full_distances_only_orientation", "full_distances_only_position"],
 }
 
 
@@ -27,6 +28,10 @@ def call_getter(g, name):
     fg = {"full_array": lambda: g.get_full_grid_as_array(), "total_volumes": lambda: np.asarray(g.get_total_volumes()),
           "full_adjacency": lambda: g.get_full_adjacency(), "full_borders": lambda: g.get_full_borders(),
           "full_distances": lambda: g.get_full_distances(),
+          "full_adjacency_only_orientation": lambda: g.get_full_adjacency(only_orientation=True),
+          "full_adjacency_only_position": lambda: g.get_full_adjacency(only_position=True),
+          "full_distances_only_orientation": lambda: g.get_full_distances(only_orientation=True),
+          "full_distances_only_position": lambda: g.get_full_distances(only_position=True),
           "pos_adjacency": lambda: g.get_position_grid().get_adjacency_of_position_grid(),
           "pos_borders": lambda: g.get_position_grid().get_borders_of_position_grid(),
           "pos_distances": lambda: g.get_position_grid().get_distances_of_position_grid(),
